@@ -196,4 +196,66 @@ theorem update_is_keys_then_flush (c : Cfg) (f : Nat) (kvs : List (Nat × Int)) 
     obtain ⟨r3, w3, o3⟩ := e'
     cases r3 <;> simp_all
 
+/-- what a batched assignment of a valid value does to the world (`setPlain_in_batch_exact`) -/
+def applyKey (w : World) (p : Nat) (v : Int) : World :=
+  { w with vals := w.vals.set p v,
+           events := w.events ++ (passing w p v).map (fun _ => { name := p, old := getVal w p, new := v }),
+           queued := enqueue w.queued (passing w p v) }
+
+/-- … and a list of them, one after the other -/
+def applyKeys : World → List (Nat × Int) → World
+  | w, [] => w
+  | w, (k, v) :: rest => applyKeys (applyKey w k v) rest
+
+@[simp] theorem applyKey_batch (w : World) (p : Nat) (v : Int) : (applyKey w p v).batch = w.batch := rfl
+@[simp] theorem applyKey_trigger (w : World) (p : Nat) (v : Int) : (applyKey w p v).trigger = w.trigger := rfl
+
+/-- **the keys of an `update`, exactly** (ordinary parameters, valid values): nothing runs; the keys are
+applied one after the other, each queueing its event for, and, each of its passing watchers -/
+theorem updateKeys_in_batch_exact (c : Cfg) : ∀ (kvs : List (Nat × Int)) (f : Nat) (w : World),
+    w.batch = true →
+    (∀ kv ∈ kvs, c.valid kv.1 kv.2 = true ∧ kv.1 < c.nparams ∧ c.isEvent kv.1 = false) →
+    (run c f (.updateKeys kvs) w).1 ≠ .oof →
+    run c f (.updateKeys kvs) w = (.ok, applyKeys w kvs, []) := by
+  intro kvs
+  induction kvs with
+  | nil =>
+    intro f w _ _ h
+    cases f with
+    | zero => simp [run] at h
+    | succ f => simp [run, applyKeys]
+  | cons kv rest ih =>
+    obtain ⟨k, v⟩ := kv
+    intro f w hb hval h
+    have hk := hval (k, v) (by simp)
+    cases f with
+    | zero => simp [run] at h
+    | succ f =>
+      have hlt : ¬ k ≥ c.nparams := Nat.not_le.2 hk.2.1
+      simp only [run, hlt, if_false] at h ⊢
+      -- the key is an ordinary parameter: the Event wrapper is the plain setter
+      have hattr : run c f (.setAttr k v) w = run c (f - 1) (.setPlain k v) w ∨ f = 0 := by
+        cases f with
+        | zero => exact Or.inr rfl
+        | succ f => left; simp [run, hk.2.2]
+      rcases hattr with hattr | hf0
+      · rw [hattr] at h ⊢
+        have hsp := setPlain_in_batch_exact c (f - 1) w k v hb hk.1
+        generalize run c (f - 1) (.setPlain k v) w = d at h hsp ⊢
+        obtain ⟨r1, w1, o1⟩ := d
+        cases r1 with
+        | oof => simp at h
+        | raised e => have := hsp (by simp); simp at this
+        | ok =>
+          have := hsp (by simp)
+          simp only [Prod.mk.injEq, true_and] at this
+          obtain ⟨hw1, ho1⟩ := this
+          subst hw1 ho1
+          simp only at h ⊢
+          have hrest := ih f (applyKey w k v) hb (fun kv hkv => hval kv (List.mem_cons_of_mem _ hkv)) h
+          simp only [applyKey] at hrest
+          rw [hrest]
+          simp [applyKeys, applyKey]
+      · subst hf0; simp [run] at h
+
 end ParamVerif.Dispatch
